@@ -63,6 +63,9 @@ type c16Case struct {
 	// that gave up, a deadline that passed while an outer interceptor worked): what to do about it is for the
 	// interceptors and the handler to decide - every one of them still runs
 	DoneCtx bool `json:",omitempty"`
+	// Reconfig: in-process: the channel had other interceptors before and is then configured with the ones of the case
+	// (nil included); httpgrpc.NewServer: an ErrorRenderer option follows the interceptor options
+	Reconfig bool `json:",omitempty"`
 }
 
 type c16Log struct {
@@ -458,6 +461,15 @@ func propC16(c c16Case) *Outcome {
 		case cInproc:
 			ch := &inprocgrpc.Channel{}
 			configure := func() {
+				if c.Reconfig {
+					// the channel was configured differently before (another mode of the program, a shared test channel):
+					// what it is configured with now is what applies - also when that is "none"
+					ch.WithServerUnaryInterceptor(c16UnaryInt("STALE", "sc-err", lg, ""))
+					ch.WithServerStreamInterceptor(c16StreamInt("STALE", "sc-err", lg))
+					ch.WithServerUnaryInterceptor(tu)
+					ch.WithServerStreamInterceptor(ts)
+					return
+				}
 				if tu != nil {
 					ch.WithServerUnaryInterceptor(tu)
 				}
@@ -522,6 +534,10 @@ func propC16(c c16Case) *Outcome {
 				}
 				if ts != nil {
 					so = append(so, httpgrpc.WithServerStreamInterceptor(ts))
+				}
+				if c.Reconfig {
+					// further options after the interceptor options (an error renderer equal to the default one)
+					so = append(so, httpgrpc.ErrorRenderer(httpgrpc.DefaultErrorRenderer))
 				}
 				s := httpgrpc.NewServer(so...)
 				r := wrapReg(s)
@@ -733,6 +749,7 @@ func genC16(t *rapid.T) c16Case {
 		c.Layers = append(c.Layers, c16Layer{Via: rapid.SampledFrom([]string{"desc", "desc", "reg"}).Draw(t, "via"), Unary: rapid.SampledFrom(c16UBeh).Draw(t, "ubeh"), Stream: rapid.SampledFrom(c16SBeh).Draw(t, "sbeh")})
 	}
 	c.MoreSends = rapid.SampledFrom([]int{0, 0, 1, 2, 3}).Draw(t, "moresends")
+	c.Reconfig = rapid.IntRange(0, 3).Draw(t, "reconfig") == 0
 	c.TUnary = rapid.SampledFrom(c16UBeh).Draw(t, "tu")
 	c.TStream = rapid.SampledFrom(c16SBeh).Draw(t, "ts")
 	c.CallStream = rapid.Bool().Draw(t, "callstream")
